@@ -208,6 +208,10 @@ type Script struct {
 	GluePlay       int
 	GlueKeepAlive  int
 	KeepAliveGlues int
+	// RemapChannels: the camera answers each SETUP with another interleaved pair
+	// than the one it was asked for (asked+16) and sends on that pair — legal, the
+	// Transport header of the answer is what counts (RFC 2326 §12.39).
+	RemapChannels bool
 	// OnPlay, when set, is called when a PLAY request is about to be answered
 	// (whatever the answer will be), before any byte of the answer is written.
 	OnPlay         func()
@@ -1114,6 +1118,9 @@ func (cn *conn) handle(r *Request) bool {
 		}
 		cn.session = sc.SessionID
 		sess = cn.session
+		if sc.RemapChannels {
+			a, c = a+16, c+16
+		}
 		full = head(200, "OK") + fmt.Sprintf("Transport: RTP/AVP/TCP;unicast;interleaved=%d-%d;ssrc=0A0B0C0%d\r\n", a, c, track) + sessHdr() + "\r\n"
 		after = func() {
 			cn.mu.Lock()
